@@ -71,6 +71,7 @@ static GenOptions optionsFor(const std::string& profile, bool thorough) {
   if (profile == "c03") { o.hostileNames = true; o.hostileValues = true; o.largeValues = thorough; }
   if (profile == "c07" || profile == "c07e") { o.allowCycles = true; o.singleUse = false;   /* a single-use edge is deliberately forgotten by the engine, so "requires a cycle" is not well defined through it */ o.maxKeys = thorough ? 14 : 8; }
   if (profile == "c06") { o.maxKeys = 9; }
+  if (profile == "c02") { o.modulusNum = 2; o.modulusDen = 3; o.oddModeWeight = 2; }   // identical recomputes, order-only and single-use edges are the point
   if (profile == "c20") { o.hostileNames = true; o.hostileValues = true; o.singleUse = false; }
   return o;
 }
@@ -216,8 +217,11 @@ static CaseResult runCase(const CaseSpec& spec, bool thorough) {
   vf::Rng r(spec.seed * 1000003ull + spec.index * 7919ull + vf::fnv(spec.profile));
   GenOptions go = optionsFor(spec.profile, thorough);
   if (spec.capi) { go.singleUse = false; }
+  bool tiny = spec.profile == "c06" && (spec.index % 2) == 0;
+  if (tiny) { go.maxKeys = 5; go.minKeys = 3; }
   Program prog = generate(r, go);
   std::vector<Op> hist = genHistory(r, prog, spec.profile, thorough);
+  if (tiny) { size_t nb = 0, cut = hist.size(); for (size_t i = 0; i < hist.size(); ++i) if (hist[i].kind == Op::Build && ++nb == 3) { cut = i + 1; break; } hist.resize(cut); }
   bool useDB = r.chance(1, 2) || spec.profile == "c03" || spec.profile == "c04";
   if (spec.profile == "c07e") { enumProgram(spec.index, prog, hist); useDB = (spec.index & 1) != 0; }
   uint32_t clientVersion = 1 + (uint32_t)r.below(5);
@@ -235,10 +239,14 @@ static CaseResult runCase(const CaseSpec& spec, bool thorough) {
     printf("{\"stalled_case\":%llu,\"why\":\"%s\"}\n", (unsigned long long)spec.index, why);
     fflush(stdout); _exit(3);
   };
+  std::unique_ptr<Pool> pool;
+  if (spec.schedMode == 2) { cx.chooser = Chooser(); cx.chooser.prefix = spec.prefix; cx.chooser.random = false; }
+  if (spec.schedMode == 3) { pool.reset(new Pool(2 + (unsigned)sr.below(7))); cx.pool = pool.get(); cx.useEngineQueue = !spec.capi && sr.chance(1, 2); }
   std::unique_ptr<EngineFront> front;
   auto newEngine = [&]() {
     front.reset();
     front = makeFront(cx, spec.capi);
+    if (cx.useEngineQueue) front->useLaneQueue();
     if (useDB) { std::string err; if (!front->attachDB(dbPath, clientVersion, true, &err)) cx.viol("harness: attachDB failed", err); cx.engineRestartedOnDB(); }
     else cx.forgetEngineState();
     cx.cancelFn = [&]() { front->cancel(); };
@@ -246,9 +254,7 @@ static CaseResult runCase(const CaseSpec& spec, bool thorough) {
   newEngine();
   int buildIdx = -1; bool mutatedSince = false, anyMutation = false;
   bool dbChecks = useDB && (spec.profile == "c03" || spec.profile == "c05" || spec.profile == "c20" || spec.profile == "c04");
-  std::unique_ptr<Pool> pool;
-  if (spec.schedMode == 2) { cx.chooser = Chooser(); cx.chooser.prefix = spec.prefix; cx.chooser.random = false; }
-  if (spec.schedMode == 3) { pool.reset(new Pool(2 + (unsigned)sr.below(7))); cx.pool = pool.get(); }
+
   for (size_t oi = 0; oi < hist.size(); ++oi) {
     const Op& op = hist[oi];
     switch (op.kind) {
